@@ -160,6 +160,48 @@ def run_workers(build, module, jobs, timeout=1800):
 AUDIT_RE = re.compile(r"\b(Admitted|admit|Axiom|Parameter|Conjecture|Admit Obligations|bypass_check)\b|Unset Guard|Unset Positivity|Unset Universe|type-in-type|impredicative-set")
 
 
+FAILED_TRANSLATORS = {}   # file -> names of the Gen_* modules it writes (filled by run_translators)
+
+
+def gen_closure(pid, header=""):
+    """Gen_* modules in the transitive `Require` closure of Props/<pid>.v and of the modules the
+    case files import (HEADER): the generated files this property's theorems and model depend on."""
+    th = os.path.join(COQ, "theories")
+    seen = set()
+
+    def imports(src):
+        src = re.sub(r"\(\*.*?\*\)", "", src, flags=re.S)
+        for imp in re.findall(r"Require\s+(?:Import\s+|Export\s+)?(.*?)\.(?=\s|$)", src, flags=re.S):
+            for name in imp.split():
+                name = name.replace("Dimod.", "")
+                if re.match(r"^(Base|Model|Proofs|Gen|Props)\.", name):
+                    visit(name.replace(".", "/"))
+
+    def visit(rel):
+        if rel in seen:
+            return
+        seen.add(rel)
+        p = os.path.join(th, rel + ".v")
+        if os.path.exists(p):
+            imports(open(p).read())
+
+    visit("Props/" + pid)
+    imports(header)
+    return {r.split("/")[1] for r in seen if r.startswith("Gen/")}
+
+
+def translators_ok_for(pid, header=""):
+    """A failed translator breaks the tie of exactly the properties that depend on what it generates
+    (a translator may declare `PROPERTIES = ["Cxx", ...]` instead; one that neither declares it nor names a
+    Gen_* module is taken to concern every property)."""
+    if not FAILED_TRANSLATORS:
+        return True, []
+    gens = gen_closure(pid, header)
+    bad = [f for f, (outs, props) in FAILED_TRANSLATORS.items()
+           if (pid in props if props is not None else (not outs or outs & gens))]
+    return not bad, bad
+
+
 def run_translators(build):
     """Regenerate coq/theories/Gen/*.v from the source tree. Returns
     (ok, messages, inputs) - fail-closed: any unparsed construct is an error."""
@@ -175,6 +217,10 @@ def run_translators(build):
         if r.returncode != 0:
             ok = False
             msgs.append(f"{f}: {r.stdout.strip()} {r.stderr.strip()[-1500:]}")
+            src = open(os.path.join(tdir, f)).read()
+            decl = re.search(r"^PROPERTIES\s*=\s*\[([^\]]*)\]", src, flags=re.M)
+            FAILED_TRANSLATORS[f] = (set(re.findall(r"Gen_[A-Za-z0-9_]+", src)),
+                                     set(re.findall(r"C\d\d", decl.group(1))) if decl else None)
         else:
             for line in r.stdout.splitlines():
                 if line.startswith("INPUT "):
